@@ -70,6 +70,29 @@ Definition deq (a c : dval) : option bool :=
 Record st := { s_env : env; s_fresh : list bytes }.
 Inductive res := RNext (s : st) | RRet (v : dval) (fresh : list bytes).
 
+(** the loop of a [BRange]: one run of the body per element (a slice element, or a (key, value) pair of a map given as a
+    list of pairs), in order; the loop itself uses no fuel, so it is defined for lists of any length *)
+Fixpoint range_loop (body_run : st -> option res) (kx vx : string) (l : list dval) (s : st) : option res :=
+  match l with
+  | [] => Some (RNext s)
+  | x :: r =>
+      let '(kv, vv) := match x with DObj "pair" [("k", a); ("v", c)] => (a, c) | _ => (DNil, x) end in
+      match body_run {| s_env := env_set (env_set (s_env s) kx kv) vx vv; s_fresh := s_fresh s |} with
+      | Some (RNext s') => range_loop body_run kx vx r s'
+      | Some (RRet v f) => Some (RRet v f)
+      | None => None
+      end
+  end.
+
+(** the arguments of a call, left to right, threading the fresh identifiers *)
+Fixpoint eval_list (ev : list bytes -> bexpr -> option (dval * list bytes)) (xs : list bexpr) (fr : list bytes) : option (list dval * list bytes) :=
+  match xs with
+  | [] => Some ([], fr)
+  | y :: r => match ev fr y with
+              | Some (d, fr1) => match eval_list ev r fr1 with Some (ds, fr2) => Some (d :: ds, fr2) | None => None end
+              | None => None end
+  end.
+
 Section Interp.
   Variable funs : list bfun.
   Variable oracle : string -> option dval.
@@ -120,13 +143,7 @@ Section Interp.
                | None => Some (None, fr) end) with
         | None => None
         | Some (rv, fr0) =>
-            match (fix go (xs : list bexpr) (fr : list bytes) : option (list dval * list bytes) :=
-                     match xs with
-                     | [] => Some ([], fr)
-                     | y :: r => match eval k e fr y with
-                                 | Some (d, fr1) => match go r fr1 with Some (ds, fr2) => Some (d :: ds, fr2) | None => None end
-                                 | None => None end
-                     end) args fr0 with
+            match eval_list (fun fr y => eval k e fr y) args fr0 with
             | None => None
             | Some (vs, fr1) =>
                 match find_fun f with
@@ -218,18 +235,7 @@ Section Interp.
             match (match d with DList l => Some l | DNil => Some [] | _ => None end) with
             | None => None
             | Some l =>
-                (fix go (l : list dval) (n : nat) (s : st) : option res :=
-                   match l with
-                   | [] => Some (RNext s)
-                   | x :: r =>
-                       (* a slice element, or a (key, value) pair of a map given as a list of pairs *)
-                       let '(kv, vv) := match x with DObj "pair" [("k", a); ("v", c)] => (a, c) | _ => (DNil, x) end in
-                       match run_st k {| s_env := env_set (env_set (s_env s) kx kv) vx vv; s_fresh := s_fresh s |} body with
-                       | Some (RNext s') => go r (S n) s'
-                       | Some (RRet v f) => Some (RRet v f)
-                       | None => None
-                       end
-                   end) l 0 {| s_env := e; s_fresh := fr' |}
+                range_loop (fun s' => run_st k s' body) kx vx l {| s_env := e; s_fresh := fr' |}
             end
         | None => None
         end
